@@ -52,6 +52,26 @@ Theorem C19_commit_crash_safe :
       (proj (crash_state k steps s) = proj s \/ proj (crash_state k steps s) = proj post).
 Proof. exact commit_crash_safe. Qed.
 
+(* The same with the two guarantees of the state tree spelled out instead of "complete at every crash
+   point": `needed v r` = keys of the tree nodes reachable from the root of version v;
+   (C17) every node the new tree needs is already stored or among the new nodes of the diff,
+   (C18) no key the pruning loop deletes is needed by the new tree.  Then the new tree is complete
+   right after the batch and after every single pruning deletion. *)
+Theorem C19_commit_crash_safe_tree :
+  forall (root_of : kvmap -> bytes) (needed : N -> bytes -> list bytes) pruning s u d steps,
+    commit_steps pruning s u d = CommitSteps steps ->
+    let post := run steps s in
+    sorted blt (st_nodes s) ->
+    Consistent root_of (complete_by needed) s ->
+    td_root d = root_of (st_subs post) ->
+    (forall k, In k (needed (cur_version s + 1) (td_root d)) ->
+       stored (st_nodes s) k \/ In k (map fst (td_new_nodes d))) ->
+    (forall k, In k (td_deleted d) -> ~ In k (needed (cur_version s + 1) (td_root d))) ->
+    forall k, (k <= length steps)%nat ->
+      Consistent root_of (complete_by needed) (crash_state k steps s) /\
+      (proj (crash_state k steps s) = proj s \/ proj (crash_state k steps s) = proj post).
+Proof. exact commit_crash_safe_tree. Qed.
+
 (* What the post-commit state is: the substates column family after C15's commit of the same updates
    (`rocks_commit` on the ordered map — by C15 the DatabaseUpdates semantics of the in-memory store,
    see the corollary below), version + 1, the root returned by the tree computation; and the commit
@@ -92,13 +112,13 @@ Theorem C19_prefix_states_are_crash_states : forall steps s k, (k <= length step
 Proof. exact nth_prefix_states. Qed.
 
 (* non-vacuity: a concrete store at version 1, a commit that deletes its substate and writes another,
-   a tree diff with one new node and one pruned node, a concrete root function and completeness
-   predicate (root node of the version present) — all hypotheses of C19_commit_crash_safe hold, the
-   commit has two crash points after the first, and the pre- and post-commit states differ. *)
+   a tree diff with one new node and one pruned node, a concrete root function and `needed` (the
+   root node of the version) — all hypotheses of C19_commit_crash_safe_tree hold, the commit has
+   two write steps (three crash points), and the pre- and post-commit states differ. *)
 Definition ex_root_of (m : kvmap) : bytes :=
   match m with [] => zero_hash | _ => flat_map (fun e : bytes * bytes => fst e ++ snd e) m end.
-Definition ex_complete (nodes : kvmap) (v : N) (r : bytes) : Prop :=
-  v = 0 \/ In (be_encode 8 v ++ [0]) (map fst nodes).
+Definition ex_needed (v : N) (r : bytes) : list bytes := if v =? 0 then [] else [be_encode 8 v ++ [0]].
+Definition ex_complete := complete_by ex_needed.
 Definition ex_subs1 : kvmap := [(enc ([7], 0) [1], [42])].
 Definition ex_subs2 : kvmap := [(enc ([7], 0) [2], [43])].
 Definition ex_store : store := mkStore (Some (1, ex_root_of ex_subs1)) ex_subs1 [(be_encode 8 1 ++ [0], [9])] [].
@@ -107,22 +127,28 @@ Definition ex_diff : tree_diff := mkDiff [(be_encode 8 2 ++ [0], [9])] [] [be_en
 Example C19_nonvacuous :
   exists steps, commit_steps true ex_store ex_updates ex_diff = CommitSteps steps /\
     length steps = 2%nat /\
+    sorted blt (st_nodes ex_store) /\
     Consistent ex_root_of ex_complete ex_store /\
     td_root ex_diff = ex_root_of (st_subs (run steps ex_store)) /\
-    (forall j, (1 <= j <= length steps)%nat ->
-       ex_complete (st_nodes (crash_state j steps ex_store)) (cur_version ex_store + 1) (td_root ex_diff)) /\
+    (forall k, In k (ex_needed (cur_version ex_store + 1) (td_root ex_diff)) ->
+       stored (st_nodes ex_store) k \/ In k (map fst (td_new_nodes ex_diff))) /\
+    (forall k, In k (td_deleted ex_diff) -> ~ In k (ex_needed (cur_version ex_store + 1) (td_root ex_diff))) /\
     proj (run steps ex_store) <> proj ex_store /\
     st_nodes (run steps ex_store) = [(be_encode 8 2 ++ [0], [9])].
 Proof.
   eexists. split; [vm_compute; reflexivity|]. split; [reflexivity|].
-  split; [split; [vm_compute; reflexivity|right; vm_compute; left; reflexivity]|].
-  split; [vm_compute; reflexivity|]. split; [|split; [vm_compute; discriminate|vm_compute; reflexivity]].
-  intros j [L1 L2]. cbn [length] in L2. right.
-  destruct j as [|[|[|j]]]; [lia| | |lia]; vm_compute; tauto.
+  split; [vm_compute; auto|].
+  split; [split; [vm_compute; reflexivity|]|].
+  { intros k I. vm_compute in I. destruct I as [<-|[]]. vm_compute. discriminate. }
+  split; [vm_compute; reflexivity|].
+  split; [intros k I; vm_compute in I; destruct I as [<-|[]]; right; vm_compute; left; reflexivity|].
+  split; [intros k I; vm_compute in I; destruct I as [<-|[]]; vm_compute; intros [E|[]]; discriminate|].
+  split; [vm_compute; discriminate|vm_compute; reflexivity].
 Qed.
 
 Print Assumptions C19_atomic_layout_safe.
 Print Assumptions C19_commit_crash_safe.
+Print Assumptions C19_commit_crash_safe_tree.
 Print Assumptions C19_commit_post_state.
 Print Assumptions C19_commit_panics_iff_version_overflow.
 Print Assumptions C19_post_substates_are_the_updates.
